@@ -257,9 +257,9 @@ func checkC18(c *Ctx) {
 
 	// ---- C18-WM: callers of the unbounded walk
 	allowed := map[string]string{
-		"Stack.nestedPathGetSet": "package path walker (privacy-checked above)",
-		"Closing.LookupSymbol":   "captured scopes of a closure: code defined inside the package keeps full access",
-		"Zlisp.FindObject":       "host API lookup by name on the interpreter's own scope stack",
+		"Stack.nestedPathGetSet":           "package path walker (privacy-checked above)",
+		"Closing.LookupSymbol":             "captured scopes of a closure: code defined inside the package keeps full access",
+		"Zlisp.FindObject":                 "host API lookup by name on the interpreter's own scope stack",
 		"SexpFunction.ClosingLookupSymbol": "captured scopes of a function",
 	}
 	for f, calls := range c.callersOf(lookup) {
